@@ -91,6 +91,9 @@ def gen(rng, ctx):
                 gname = f"rq{k}_{p}"
                 cd["nodes"].append([gname, rng.choice(["not", "buf"]), False])
                 cd["edges"] += [[f"q{k - 1}", gname], [gname, pin]]
+            elif rng.random() < 0.2:
+                # a control pin fed by a primary input that the logic uses as well (it must survive the pin's removal)
+                cd["edges"].append([rng.choice([x for x in nodes if tps[x] == "input"]), pin])
             elif rng.random() < 0.5:
                 if not any(x[0] == "rst" for x in cd["nodes"]):
                     cd["nodes"].append(["rst", "input", False])
